@@ -5,7 +5,7 @@ CONSTANT CoreLen
 VARIABLE probe
 pvars == <<vars, probe>>
 
-WriterOps == {"Propagate", "ToDf", "ToCsv", "MemberSetPeriod", "MemberPropagate", "Save", "Load", "LoadInplace"}
+WriterOps == {"Propagate", "ToDf", "ToCsv", "MemberSetPeriod", "MemberPropagate", "Rename", "Save", "Load", "LoadInplace"}
 ReadSeq == << <<"Len", <<>>>>, <<"ParamName", <<>>>>, <<"ParamValues", <<>>>>, <<"Periods", <<>>>>, <<"Jacobis", <<>>>>,
               <<"Iterate", <<>>>>, <<"GetItem", <<1>>>>, <<"GetItem", <<2>>>>,
               <<"MemberReadTrajectory", <<1>>>>, <<"MemberReadTrajectory", <<2>>>>,
@@ -20,7 +20,7 @@ ProbeNext ==
     \/ probe \in 1 .. Len(ReadSeq) /\ Do(ReadSeq[probe][1], ReadSeq[probe][2]) /\ probe' = probe + 1
 ProbeSpec == ProbeInit /\ [][ProbeNext]_pvars
 
-CoreView  == <<ctor, L, I, saved>>
+CoreView  == <<ctor, nm, L, I, saved>>
 ProbeView == IF probe = 0 THEN <<CoreView, 0, <<>>>> ELSE <<CoreView, probe, hist>>
 EmitProbe == (probe = Len(ReadSeq) + 1) => PrintT(ToJson(hist))
 =============================================================================
